@@ -13,16 +13,36 @@ def get(fam, kind, impl):
                                        "Py" if impl == "py" else ""))
 
 
+def get_custom(fam, kind, impl):
+    """a tree subclass that names a leaf class of its own (`_bucket_type`,
+    the extension point tests/test_btreesubclass.py uses): `CL_OOBTree` with
+    leaves of class `CLeaf_OOBucket`"""
+    return __getattr__("CL_%s%s%s" % (fam, kind,
+                                      "Py" if impl == "py" else ""))
+
+
+def _base(base_name):
+    modname = "BTrees.%sBTree" % base_name[:2]
+    mod = sys.modules.get(modname) or importlib.import_module(modname)
+    return getattr(mod, base_name)
+
+
 def __getattr__(name):
-    if not name.startswith("Sub_"):
+    if not name.startswith(("Sub_", "CL_", "CLeaf_")):
         raise AttributeError(name)
     cls = _made.get(name)
     if cls is None:
-        base_name = name[4:]
-        modname = "BTrees.%sBTree" % base_name[:2]
-        mod = sys.modules.get(modname) or importlib.import_module(modname)
-        base = getattr(mod, base_name)
-        cls = type(name, (base,), {"__module__": __name__})
+        if name.startswith("CL_"):
+            base_name = name[3:]
+            py = "Py" if base_name.endswith("Py") else ""
+            stem = base_name[:-2] if py else base_name
+            leaf = stem[:2] + ("Bucket" if stem[2:] == "BTree" else "Set")
+            cls = type(name, (_base(base_name),), {
+                "__module__": __name__,
+                "_bucket_type": __getattr__("CLeaf_" + leaf + py)})
+        else:
+            base_name = name.split("_", 1)[1]
+            cls = type(name, (_base(base_name),), {"__module__": __name__})
         _made[name] = cls
     return cls
 
